@@ -23,9 +23,10 @@ type c03State struct {
 	errs     []string
 	views    []*c03View
 	nWriters int
-	grand    bool // batches also write a grandchild collection K<i>/G
-	syncRead bool // the reader issues a synchronous NotifyMerger between its snapshots
-	pollRead bool // the reader yields between its snapshots (a polling reader: one snapshot per scheduling turn)
+	grand    bool               // batches also write a grandchild collection K<i>/G
+	syncRead bool               // the reader issues a synchronous NotifyMerger between its snapshots
+	pollRead bool               // the reader yields between its snapshots (a polling reader: one snapshot per scheduling turn)
+	late     *vs.Chan[struct{}] // when set: the reader starts only after writer 1's last ExecuteBatch has returned
 }
 
 func atoiOr0(b []byte) int {
@@ -63,12 +64,18 @@ func (st *c03State) writer(i, batches int) func() {
 				return
 			}
 			st.returned[i][j] = st.ev
+			if st.late != nil && i == 1 && j == batches {
+				st.late.Close()
+			}
 		}
 	}
 }
 
 func (st *c03State) reader(n int, useGet bool) func() {
 	return func() {
+		if st.late != nil {
+			st.late.Recv2()
+		}
 		for k := 0; k < n; k++ {
 			st.ev++
 			v := &c03View{started: st.ev}
@@ -184,11 +191,16 @@ func (st *c03State) final(deadlock string) []Violation {
 	return out
 }
 
+// poll[0]: polling reader; poll[1]: late reader (starts when writer 1's second batch has returned, i.e. while the
+// first persistence round is done or under way and the second one is still to come)
 func c03Program(name string, cfg Config, readers int, grand, syncRead bool, poll ...bool) g2Program {
 	return g2Program{Name: name, Build: func() (*World, func() *Violation, func(string) []Violation) {
 		w := NewWorld(cfg, nil)
 		w.gateOff = true
 		st := &c03State{w: w, nWriters: 2, grand: grand, syncRead: syncRead, pollRead: len(poll) > 0 && poll[0]}
+		if len(poll) > 1 && poll[1] {
+			st.late = vs.MakeChan[struct{}](0)
+		}
 		if w.infra != "" {
 			return w, nil, st.final
 		}
@@ -210,6 +222,7 @@ func init() {
 			c03Program("batches also write a grandchild collection, MaxPreMergerBatches=2 (two unmerged batches side by side), in-memory", Config{Backing: "none", MinMergePct: 100, MaxPre: 2}, 3, true, false),
 			c03Program("reader x 4 snapshots with a synchronous NotifyMerger between them, MaxPreMergerBatches=1, in-memory", Config{Backing: "none", MinMergePct: 100, MaxPre: 1}, 4, false, true),
 			c03Program("polling reader x 4 snapshots (yields between snapshots), MaxPreMergerBatches=1, in-memory", Config{Backing: "none", MinMergePct: 100, MaxPre: 1}, 4, false, false, true),
+			c03Program("late polling reader x 4 snapshots (starts once writer 1's second batch has returned), store-backed, CachePersisted", Config{Backing: "store", MinMergePct: 0.01, MaxPre: 1, CachePersisted: true}, 4, false, false, true, true),
 		}
 		if tier == "thorough" {
 			progs = append(progs, c03Program("store-backed with forced compaction, DeferredSort, grandchild", Config{Backing: "store", MinMergePct: 100, MaxPre: 1, Concern: 2, DeferredSort: true}, 2, true, false))
